@@ -16,7 +16,7 @@ CONSTANTS
   FixD3,   \* default exp/nbf validators reject present values that are not RFC 3339 strings
   FixD7    \* validators registered without an expected claim run as well
 
-PKeys == {"exp", "nbf", "iss", "ca", "cb"}
+PKeys == {"exp", "nbf", "iat", "iss", "ca", "cb"}
 
 \* payload value classes: generic values and, for exp / nbf, classes of time values
 PAbsent == "absent"
